@@ -25,6 +25,15 @@ def swapRemoveFront (l : List α) (i : Nat) : List α :=
 def resize (l : List α) (n : Nat) (x : α) : List α :=
   l.take n ++ List.replicate (n - l.length) x
 
+theorem swapRemove_length_le (l : List α) (i : Nat) : (swapRemove l i).length ≤ l.length := by
+  unfold swapRemove; split <;> simp
+
+theorem swapRemoveFront_length_le (l : List α) (i : Nat) : (swapRemoveFront l i).length ≤ l.length := by
+  unfold swapRemoveFront; split <;> simp
+
+theorem resize_length (l : List α) (n : Nat) (x : α) : (resize l n x).length = n := by
+  simp [resize]; omega
+
 /-- `retain` with a predicate that is asked once per element, in order: keep the element at position
 `p` iff `f p` (positions counted from `p₀`). -/
 def retainFrom (f : Nat → Bool) : Nat → List α → List α
